@@ -31,7 +31,8 @@ import (
 
 const (
 	barrierBase = 0xFB000000
-	stepTimeout = 5 * time.Second
+	stepTimeout = 15 * time.Second // ceiling of every event wait (frame, barrier answer, link end)
+	rigCeiling  = 20 * time.Second // ceiling of the waits that only set a scenario up
 )
 
 type H struct {
@@ -88,6 +89,8 @@ type genResult struct {
 	ctr   uint32 // system-bytes counter after the generation (as tracked by the oracle)
 	ended bool   // the library ended the link
 	alive *Peer  // the peer, if the link is still up
+	// discarded: the rig could not establish the scenario (counted, judged by the floor obligation)
+	discarded bool
 }
 
 // fence sends a Linktest.req barrier and collects every frame read before its Linktest.rsp.
